@@ -9,7 +9,7 @@ package steplib
 type Walker struct {
 	Sys           *System
 	rng           uint64
-	BlockedWeight int // weight (out of 100) of a proc known to be blocked; default 4
+	BlockedWeight int            // weight (out of 100) of a proc known to be blocked; default 4
 	Weights       map[string]int // optional relative weight per proc name (default 100)
 	EnvAlone      bool           // keep walking when only environment actions remain (default: stop)
 	Env           []EnvAction    // environment actions (spec processes that are not archetypes), scheduled like procs
